@@ -37,6 +37,9 @@ KEYS = {
     'K3': ((6, 5, (5, 4), (0, 1)), (2, 5, (5, 4), (0, 1))),
     'K4': ((4, 4, (1, 1), (1, 1)), (4, 4, (1, 1), (1, 1))),
     'K5': ((5, 5, (2, 1), (0, 1)), (3, 7, (1, 2), (3, 4))),
+    # keys that share exactly one axis configuration with K1 (a per-axis cache must not leak the other axis)
+    'K6': ((6, 4, (2, 1), (0, 1)), (4, 4, (1, 1), (0, 1))),
+    'K7': ((4, 4, (1, 1), (0, 1)), (8, 5, (1, 2), (0, 1))),
 }
 
 
@@ -119,8 +122,12 @@ def replay_pair(rec, ctx, np, selftest_state=None):
                 ctx.replayed(1, key=(name, json.dumps(rec['args']), rec['dir'], cplx))
                 if msg:
                     ctx.fail(sig(rec, name), '%s args=%s variant=%s complex=%s: %s' % (name, rec['args'], variant, cplx, msg), rec)
-    fttools.mdft.clear()
-    fttools.czt.clear()
+    # the shared executors keep their caches across configurations (neighbouring configurations share one axis
+    # exactly), so a cache that forgets part of what a basis depends on is exposed; emptied now and then for memory
+    replay_pair.count = getattr(replay_pair, 'count', 0) + 1
+    if replay_pair.count % 512 == 0:
+        fttools.mdft.clear()
+        fttools.czt.clear()
 
 
 def replay_fft(rec, ctx, np):
@@ -299,7 +306,7 @@ def validate_traces(ctx, traces, keys, name):
 
 def run_executors(ctx, np, selftest=False):
     quick = ctx.tier == 'quick'
-    keys = ['K1', 'K2', 'K3'] if quick else ['K1', 'K2', 'K3', 'K4', 'K5']
+    keys = ['K1', 'K6', 'K7', 'K2', 'K3'] if quick else ['K1', 'K6', 'K7', 'K2', 'K3', 'K4', 'K5']
     core.sany('Executors')
     core.sany('ExecutorsTrace')
     # every history of any length, specified design: the invariant holds
